@@ -104,7 +104,7 @@ func runC14(r *core.Run, tier string) {
 		return
 	}
 	defer env.Close()
-	n := 5000
+	n := 20000
 	if tier == "thorough" {
 		n = 100000
 	}
